@@ -14,6 +14,7 @@ import io
 import pickle
 import random
 import struct
+import sys
 
 from simkit import core
 from simkit import matmodel as MDL
@@ -277,6 +278,8 @@ def apply(op, w, stats, rngless=None):
         else:
             w.bind(op[1], SPS.mk(spec), DNS.model_of(spec))
         return
+    if kind == 'teardown':
+        return
     if kind == 'gc':
         gc.collect()
         w.flags.add('gc')
@@ -299,8 +302,16 @@ def apply(op, w, stats, rngless=None):
             return
         oid, X = w.names[op[2]]
         M = w.objs[oid]['M']
+        rc0 = sys.getrefcount(X)
         mv = memoryview(X)
-        w.views[op[1]] = {'mv': mv, 'oid': oid, 'shape': (M.m, M.n), 'released': False, 'age': 0}
+        rc1 = sys.getrefcount(X)
+        w.views[op[1]] = {'mv': mv, 'oid': oid, 'shape': (M.m, M.n), 'released': False, 'age': 0, 'direct': True}
+        if rc1 != rc0 + 1:
+            # every export must pin the exporter by one reference of its own, otherwise the buffer of the
+            # view that is released last is no longer protected
+            raise Mismatch('export-does-not-pin-exporter', 'memoryview(%s) changed the reference count of the matrix by %d instead of 1 '
+                           '(%d other exports alive)' % (op[2], rc1 - rc0, sum(1 for v in w.views.values() if v['oid'] == oid and not v['released'] and v.get('direct')) - 1),
+                           op='export')
         fmt = {'i': 'l', 'd': 'd', 'z': 'Zd'}[M.tc]
         want_strides = (ITEM[M.tc][1], ITEM[M.tc][1] * M.m)
         if mv.ndim != 2 or tuple(mv.shape) != (M.m, M.n) or mv.format != fmt or mv.readonly or mv.itemsize != ITEM[M.tc][1] or \
@@ -312,7 +323,7 @@ def apply(op, w, stats, rngless=None):
         v = w.views.get(op[2])
         if v is None or v['released']:
             return
-        w.views[op[1]] = {'mv': memoryview(v['mv']), 'oid': v['oid'], 'shape': v['shape'], 'released': False, 'age': 0}
+        w.views[op[1]] = {'mv': memoryview(v['mv']), 'oid': v['oid'], 'shape': v['shape'], 'released': False, 'age': 0, 'direct': False}
         return
     if kind == 'write_view':
         v = w.views.get(op[1])
@@ -344,8 +355,15 @@ def apply(op, w, stats, rngless=None):
         if v is None or v['released']:
             return
         # nested views keep the exporter alive through their own reference
+        owner = [X for (o, X) in w.names.values() if o == v['oid']]
+        nested_alive = any(x is not v and not x['released'] and not x.get('direct') and x['oid'] == v['oid'] for x in w.views.values())
+        rc0 = sys.getrefcount(owner[0]) if owner else None
         v['mv'].release()
         v['released'] = True
+        if owner and v.get('direct') and not nested_alive:
+            rc1 = sys.getrefcount(owner[0])
+            if rc1 != rc0 - 1:
+                raise Mismatch('release-refcount', 'releasing a direct export changed the reference count of the matrix by %d instead of -1' % (rc1 - rc0), op='release')
         w.collect()
         return
     if kind == 'drop':
@@ -621,9 +639,22 @@ def run_ops(ops, journal, rng=None, nops=0, stats=None, alloc_mode='guard'):
         stats['steps'] = stats.get('steps', 0) + 1
         i += 1
     nontrivial = bool(w.flags & {'export_outlived_event', 'stream_fault_fired'})
-    # drop everything deterministically
-    w.views.clear()
-    w.names.clear()
+    # drop everything deterministically — inside the journalled region: a reference-count error made
+    # earlier in the history typically kills the interpreter here
+    if violation is None:
+        journal.log_op(i, ['teardown'])
+        done.append(['teardown'])
+        w.views.clear()
+        w.names.clear()
+        gc.collect()
+        nv, txt = SPS.seam_check()
+        journal.end_op(i)
+        if nv:
+            violation = {'oracle': 'allocator-seam', 'klass': 'allocator-seam:teardown', 'sig': {'oracle': 'allocator-seam', 'op': 'teardown'},
+                         'detail': 'after teardown: %s' % txt}
+    else:
+        w.views.clear()
+        w.names.clear()
     return violation, done, log.digest(), nontrivial
 
 
@@ -656,6 +687,10 @@ def run_unit(seed, tier, r, journal):
             res['nontrivial_digests'].append(core.sha(done))
         if v is not None:
             res['violations'].append({'case': {'ops': done, 'alloc_mode': mode}, 'violation': v})
+            # the interpreter's state is suspect after a violation (reference counts, heap): report now instead
+            # of dying in a later, innocent history — unless it is a listed known finding (a refusal)
+            if not core.match_known(core.load_known(PROPERTY), v['sig']):
+                break
         if k == 0 and r % 16 == 0:
             res['samples'].append({'ops': done[:14], 'total_ops': len(done), 'alloc_mode': mode})
     res['digest'] = ulog.digest()
